@@ -9,6 +9,7 @@ mod gen;
 mod json;
 mod l2;
 mod marathon;
+mod spawnathon;
 mod minimize;
 mod ops;
 mod oracle;
@@ -53,7 +54,7 @@ fn parse_args(raw: &[String]) -> Args {
     let mut flags = Vec::new();
     let takes_value = [
         "--seed", "--from", "--to", "--stride", "--offset", "--out", "--idx",
-        "--watchdog", "--family", "--tmp", "--plan", "--threads", "--budget", "--steps", "--part", "--ops", "--mode",
+        "--watchdog", "--family", "--tmp", "--plan", "--threads", "--budget", "--steps", "--part", "--ops", "--mode", "--alive",
     ];
     let mut i = 0;
     while i < raw.len() {
@@ -311,6 +312,11 @@ fn real_main() -> Result<i32, String> {
         "free" => free::cmd_free(&a.kv, &a.flags),
         "refeval" => oracle::refeval_main(),
         "refserver" => oracle::refserver_main(),
+        "spawnathon" => spawnathon::cmd_spawnathon(
+            a.u64("--threads", 70000)?,
+            a.u64("--alive", 1600)?,
+            a.u64("--mode", 7)? as u8,
+        ),
         "marathon" => marathon::cmd_marathon(a.u64("--ops", 1 << 20)?, a.u64("--mode", 7)? as u8),
         "hooks" => {
             println!("{}", engine::hooks_compiled());
